@@ -336,6 +336,7 @@ def check_C13(ctx):
     t = ctx.tier
     res = run_family(ctx, "universe", "MC_Universe", ["Universe_gen_%s.cfg" % t], "UniverseTrace", rand_n=200 if ctx.quick() else 3000,
                      a_cfgs=["Universe_A1.cfg", "Universe_A2.cfg"], shard=700)
+    vlib.tlc_expect_violation(ctx, "MC_Universe", "Universe_A1_bugdemo.cfg", "C13_TablesAreScopeView")
     fails = vlib.collect_failures(res["trace"], res["bad"], "universe", only_prefix="C13")
     tr = res["trace"]
     corpus = [r for r in tr if r["case"]["kind"] == "corpus"]
@@ -426,6 +427,7 @@ def check_C03(ctx):
     proved = vlib.tlaps_prove(ctx, "proofs/ImportTableProof.tla")
     res = run_family(ctx, "tracker", "MC_ImportTracker", ["ImportTracker_gen_%s.cfg" % t, "ImportTracker_gen_%s2.cfg" % t], "ImportTrackerTrace",
                      rand_n=4000 if ctx.quick() else 60000, a_cfgs=["ImportTracker_A.cfg"], shard=5000)
+    vlib.tlc_expect_violation(ctx, "MC_ImportTracker", "ImportTracker_A_bugdemo.cfg", "DesignAllNamed")
     fails = vlib.collect_failures(res["trace"], res["bad"], "tracker", only_prefix="C03")
     # pipeline side of C03 (import block of written files = referenced packages): judged by the genfile family
     gf = genfile_family(ctx, only="C03")
@@ -492,6 +494,12 @@ def check_C01(ctx):
 PIPELINE_A = {"quick": ["Pipeline_sib2_quick.cfg", "Pipeline_nested2_quick.cfg", "Pipeline_root2_quick.cfg"],
               "thorough": ["Pipeline_sib2_thorough.cfg", "Pipeline_nested2_thorough.cfg", "Pipeline_root2_thorough.cfg", "Pipeline_sib3_thorough.cfg"]}
 
+# design-level negative controls: one modelled decision switched to the wrong alternative must yield a counterexample
+PIPELINE_DEMOS = {
+    "C08": [("Pipeline_root2_bugdemo.cfg", "C08_Converges"), ("Pipeline_sib2_savedemo.cfg", "C08_SumAfterSuccess")],
+    "C07": [("Pipeline_sib2_keepdemo.cfg", "C07_ExistsIffRendered")],
+}
+
 PIPELINE_ASSUME = [
     "every run executes in a fresh process (gvh child pipeline-run); the fixture module has packages p, q, r (r imports p), two enabled types each",
     "logged directory hashes (golang.org/x/mod dirhash, computed by the harness just before the run) are bound, not recomputed by the specification",
@@ -504,6 +512,8 @@ def pipeline_check(ctx, menu, rule, nontrivial, rand_n=0, extra_gen=(), only=Non
     t = ctx.tier
     for cfg in PIPELINE_A[t]:
         vlib.tlc_check(ctx, "MC_Pipeline", cfg, workers=vlib.NCPU, timeout=2400)
+    for cfg, inv in PIPELINE_DEMOS.get(menu, ()):
+        vlib.tlc_expect_violation(ctx, "MC_Pipeline", cfg, inv)
     gens = ["PipelineHist_%s_%s.cfg" % (menu, t)] + list(extra_gen)
     res = run_family(ctx, "pipeline", "MC_PipelineHist", gens, "PipelineTrace", rand_n=rand_n, shard=6000, by_history=True, exec_timeout=7200)
     fails = list(extra_fails) + vlib.collect_failures(res["trace"], res["bad"], "pipeline", only_prefix=only or ctx.prop, cases=res["cases"])
